@@ -1,7 +1,9 @@
 (** C02 — stored messages are returned as they were submitted.
     Statements only; every proof is [exact <lemma>].
     The model is raven's parse / store / rebuild path as of the fixes
-    fixes/C02-1 .. C02-6; no class of inputs is excepted any more.
+    C02-1 .. C02-6, 12a5042, 84a3070 and eb5748f; no class of inputs is excepted.
+    [faults] is the schedule of failing writes to the blobs table of the shared
+    database (one boolean per out-of-line part): every theorem holds for every schedule.
     [hash] stands for sha256 (any function: a collision is harmless since
     fix C02-6, a blob is used only if it holds exactly the part's octets). *)
 From Coq Require Import String Ascii List Bool Arith ZArith.
@@ -17,31 +19,33 @@ Import ListNotations.
     [msg_equiv]: single-part — identical body octets, same header fields in order,
     names and values up to surrounding white space, at most one default
     Content-Type added; multipart — same tree, per node media type, charset, file
-    name, content-id and decoded content up to a final line break. *)
-Theorem c02_roundtrip : forall (hash : str -> str) (bs later : blobs) (m : msg),
-  wf_msg m = true -> spec_ok m (roundtrip hash bs m later) = true.
+    name, content-id and IDENTICAL decoded content (stronger than the property's
+    "up to a final line break": since 84a3070 / eb5748f parts are written as stored). *)
+Theorem c02_roundtrip : forall (hash : str -> str) (faults : list bool) (bs later : blobs) (m : msg),
+  wf_msg m = true -> spec_ok m (roundtrip hash faults bs m later) = true.
 Proof. exact roundtrip_all. Qed.
 Print Assumptions c02_roundtrip.
 
 (** THE PROPERTY, independence and stability: what a message returns depends
     neither on the messages stored before it (any two histories) nor on when it
-    is fetched (any later stores). *)
-Theorem c02_independent : forall (hash : str -> str) (bs1 bs2 later1 later2 : blobs) (m : msg),
-  wf_msg m = true -> roundtrip hash bs1 m later1 = roundtrip hash bs2 m later2.
+    is fetched (any later stores), nor on which writes to the blob table failed
+    while it was stored (any two fault schedules). *)
+Theorem c02_independent : forall (hash : str -> str) (f1 f2 : list bool) (bs1 bs2 later1 later2 : blobs) (m : msg),
+  wf_msg m = true -> roundtrip hash f1 bs1 m later1 = roundtrip hash f2 bs2 m later2.
 Proof. exact independent_all. Qed.
 Print Assumptions c02_independent.
 
 (** explicit results *)
-Theorem c02_single_result : forall (hash : str -> str) (bs later : blobs) (hs : list header) (b : str),
+Theorem c02_single_result : forall (hash : str -> str) (faults : list bool) (bs later : blobs) (hs : list header) (b : str),
   hs <> [] ->
-  roundtrip hash bs (mk_msg hs (Single b)) later
+  roundtrip hash faults bs (mk_msg hs (Single b)) later
   = Some (mk_msg (map out_hdr (map hdr_store hs) ++ single_extra hs) (Single b)).
 Proof. exact single_result. Qed.
 Print Assumptions c02_single_result.
 
-Theorem c02_multipart_result : forall (hash : str -> str) (bs later : blobs) (hs : list header) (st : str) (ks : list mime),
+Theorem c02_multipart_result : forall (hash : str -> str) (faults : list bool) (bs later : blobs) (hs : list header) (st : str) (ks : list mime),
   wf_kids ks = true -> kept_hdrs hs st <> [] ->
-  roundtrip hash bs (mk_msg hs (Multipart st ks)) later
+  roundtrip hash faults bs (mk_msg hs (Multipart st ks)) later
   = Some (mk_msg (map out_hdr (kept_hdrs hs st) ++ [(S_ "MIME-Version", S_ " 1.0")])
                  (Multipart (to_lower st) (map tmap ks))).
 Proof. exact multi_result. Qed.
@@ -54,10 +58,16 @@ Theorem c02_tree_rebuild : forall t : mime, node_ok t.
 Proof. exact all_nodes_ok. Qed.
 Print Assumptions c02_tree_rebuild.
 
-(** per leaf: media type, charset, file name, content-id, decoded content *)
+(** per leaf: media type, charset, file name, content-id, identical decoded content *)
 Theorem c02_leaf_roundtrip : forall l : leaf, wf_leaf l = true -> leaf_equiv l (leaf_image l) = true.
 Proof. exact leaf_roundtrip. Qed.
 Print Assumptions c02_leaf_roundtrip.
+
+(** a leaf that is not quoted-printable (which the MIME reader decodes) comes back octet for octet *)
+Theorem c02_leaf_body_exact : forall l : leaf,
+  equal_fold (l_cte l) s_qp = false -> l_body (leaf_image l) = l_body l.
+Proof. exact leaf_body_exact. Qed.
+Print Assumptions c02_leaf_body_exact.
 
 (** every header field keeps its name and value up to surrounding white space *)
 Theorem c02_header_field_kept : forall h : header, hdr_eqv h (out_hdr (hdr_store h)) = true.
@@ -71,11 +81,12 @@ Theorem c02_multipart_headers_kept : forall (hs : list header) (st : str),
 Proof. exact multipart_headers_kept. Qed.
 Print Assumptions c02_multipart_headers_kept.
 
-(** blob de-duplication is invisible: the stored rows read with the blob table of
-    any later time are the rows one gets without a blob table *)
-Theorem c02_blobs_invisible : forall (hash : str -> str) (todo : list ppart) (bs : blobs) (done : list ppart) (rows : list row)
+(** blob de-duplication AND blob-store failures are invisible: whatever the fault
+    schedule, the stored rows read with the blob table of any later time are the rows
+    one gets without a blob table (a failed blob write keeps the part in line) *)
+Theorem c02_blobs_invisible : forall (hash : str -> str) (todo : list ppart) (faults : list bool) (bs : blobs) (done : list ppart) (rows : list row)
   (bs' : blobs) (rows' : list row),
-  store_parts hash bs done todo rows = (bs', rows') ->
+  store_parts hash faults bs done todo rows = (bs', rows') ->
   exists ext new, bs' = bs ++ ext /\ rows' = rows ++ new /\
     forall later, map (inline_row (bs' ++ later)) new = rowsP_aux done todo.
 Proof. exact store_parts_inline. Qed.
@@ -104,6 +115,12 @@ Proof. exact (conj deep_is_wf single_is_wf). Qed.
 (** the former DedupForeignForm witness: equivalent and history-independent now *)
 Example c02_dedup_witness_ok :
   wf_msg m_second = true
-  /\ spec_ok m_second (roundtrip hid bs_after_first m_second []) = true
-  /\ omsg_eqb (roundtrip hid bs_after_first m_second []) (roundtrip hid [] m_second []) = true.
+  /\ spec_ok m_second (roundtrip hid [] bs_after_first m_second []) = true
+  /\ omsg_eqb (roundtrip hid [] bs_after_first m_second []) (roundtrip hid [] [] m_second []) = true
+  /\ omsg_eqb (roundtrip hid [true; true] bs_after_first m_second []) (roundtrip hid [] [] m_second []) = true.
 Proof. exact dedup_witness_ok. Qed.
+
+(** every blob write fails: nothing reaches the blob table, the message comes back *)
+Example c02_faulty_store_example :
+  fst (store hid [true; true] [] m_first) = [] /\ spec_ok m_first (roundtrip hid [true; true] [] m_first []) = true.
+Proof. exact faulty_store_example. Qed.
